@@ -184,7 +184,31 @@ def check_array(out, facts):
         v2, t2 = evl.ev(g['thir'], ctx)
         why = []
         st2 = [x for x in sym.walk(t2) if x[0] == 'star']
-        if len(st2) != 1 or guard_canon(sym.vstr(st2[0][1]), G) != 'index_mut(self.slice, RangeTo::RangeTo{0: self.count})':
+        def _prefix_count_view(src):
+            # the loop source is a view of the first `count` slots: `&mut slice[..count]`, `slice.iter_mut().take(count)`,
+            # `slice[..count].iter_mut()`, `slice.split_at_mut(count).0`, ...
+            x = strip(src)
+            taken = None
+            for _ in range(6):
+                if isinstance(x, tuple) and x and x[0] == 'call' and x[1] == 'take' and len(x[3]) == 2:
+                    taken = strip(x[3][1])
+                    x = strip(x[3][0])
+                elif isinstance(x, tuple) and x and x[0] == 'call' and x[1] in ('iter_mut', 'iter', 'into_iter') and x[3]:
+                    x = strip(x[3][0])
+                else:
+                    break
+            sv_ = slice_view(x)
+            if sv_ is None:
+                return False
+            base, frm, to = sv_
+            if frm is not None and sym.vstr(frm) not in ('0:usize', '0'):
+                return False
+            if taken is not None and to is None:
+                to = taken
+            elif taken is not None:
+                return False
+            return to is not None and guard_canon(sym.vstr(base), G) == 'self.slice' and guard_canon(sym.vstr(to), G) == 'self.count'
+        if len(st2) != 1 or not (guard_canon(sym.vstr(st2[0][1]), G) == 'index_mut(self.slice, RangeTo::RangeTo{0: self.count})' or _prefix_count_view(st2[0][1])):
             why.append('guard does not iterate exactly slice[..count]')
         else:
             b = [e for e in events(st2[0][2]) if e[0] in ('MUTCALL', 'OWN')]
